@@ -190,7 +190,7 @@ class Facts:
                     d[a] = v
                 else:
                     d.pop(a, None)
-            if len(d) > len(mine):
+            if len(d) > len(mine) + 1:
                 continue
             hi = l.const + c
             ok = True
